@@ -22,7 +22,7 @@ def variants(tier):
 def budget(tier):
     if tier == "thorough":
         return dict(shards=8, examples=400, seconds=1500, shrink_seconds=300, min_nontrivial=40)
-    return dict(shards=8, examples=30, seconds=80, shrink_seconds=60, min_nontrivial=6)
+    return dict(shards=12, examples=30, seconds=100, shrink_seconds=60, min_nontrivial=3)
 
 
 def strategy(tier):
